@@ -113,7 +113,7 @@ let run_art ltp steps =
   let gG = ref [] and txt_ok = ref true and wild = ref false in
   List.iteri (fun i s ->
     let c = !cr in
-    match colon s with
+    match (match colon s with [a; b; c0; d0; e0; f0; _] -> [a; b; c0; d0; e0; f0] | l -> l) with
     | ["m"; mode] ->
       cr := { c with ac_ltp = (mode <> "0") };
       if i > 0 then Buffer.add_char out ';';
@@ -158,7 +158,7 @@ let run_artn steps =
   let note l = if not (List.mem l !kinds) then kinds := l :: !kinds in
   List.iteri (fun i s ->
     if i > 0 then Buffer.add_char out ';';
-    let f = colon s in
+    let f = (match colon s with [a; b; c0; d0; e0; f0; _] -> [a; b; c0; d0; e0; f0] | l -> l) in
     let op = match f with
       | [dt; addr; net; u; lenf; data] ->
         now := !now + ios dt;
